@@ -464,6 +464,7 @@ type PathStep struct {
 	Img     string `json:"image_hash"`
 	ImgDesc string `json:"image_desc"`
 	Pending string `json:"pending"`
+	Lazy    bool   `json:"lazy_rotation,omitempty"`
 }
 
 type Finding struct {
@@ -794,7 +795,7 @@ func (e *CrashEngine) crashWorkloadMode(n *node, level int, ops []Op, lazy bool)
 				e.Stats.TornHashes[ih] = true
 			}
 			lr := e.leaf(img)
-			step := PathStep{Ops: ops, K: cp.K, Variant: cp.Variant, Img: ih, ImgDesc: info.Desc, Pending: pend}
+			step := PathStep{Ops: ops, K: cp.K, Variant: cp.Variant, Img: ih, ImgDesc: info.Desc, Pending: pend, Lazy: lazy}
 			path := append(append([]PathStep(nil), n.path...), step)
 			vs := CheckRecovery(lr.obs, legal, inflight)
 			for _, m := range lr.reopenViol {
@@ -939,4 +940,39 @@ func CheckIDAllocation(baseMeta []byte, log []simdisk.Op) []Violation {
 		prev = cur
 	}
 	return vs
+}
+
+// ReplayCrashStep re-records one level of a crash path on image st and returns
+// the recorded crash image (found by position and content hash) together with
+// the model a recovery of it is rebased on.
+func ReplayCrashStep(st *simdisk.State, cfg Config, ps PathStep, base *Model) (*simdisk.State, *Model, error) {
+	sr := RunSession(st, cfg, ps.Ops, SessionOpts{ObserveEach: true, CmpProp: "C05", Base: base, Lazy: ps.Lazy})
+	if sr.OpenErr != nil || len(sr.Models) == 0 {
+		return nil, nil, fmt.Errorf("recording failed: open error %v", sr.OpenErr)
+	}
+	log := sr.Disk.Log[:sr.LogLen]
+	for _, cp := range CrashPoints(st, sr.Disk.BaseIno, log) {
+		if cp.K != ps.K || cp.Variant != ps.Variant {
+			continue
+		}
+		var found *simdisk.State
+		cp.model.Enumerate(1<<20, func(img *simdisk.State, info simdisk.ImageInfo) bool {
+			if img.Hash() == ps.Img {
+				found = img
+				return false
+			}
+			return true
+		})
+		if found != nil {
+			ai := cp.Acked
+			if ai < 0 {
+				ai = 0
+			}
+			if ai >= len(sr.Models) {
+				ai = len(sr.Models) - 1
+			}
+			return found, sr.Models[ai], nil
+		}
+	}
+	return nil, nil, fmt.Errorf("image %s not found at log index %d (the tree under test records a different I/O sequence)", ps.Img, ps.K)
 }
